@@ -190,5 +190,5 @@ Proof.
     destruct ss; [cbn in Hlen; lia|discriminate].
   - intros rabs H taper window eps p HH Htap.
     exact (kfilt_base_kills_common C c0 c1 cadd cmul (fsub C cadd copp) (fdiv C cmul cinv) copp cinv rleb reqb rabs
-             F T Ch L E H taper window eps HH p _ (common C c1 cadd cmul cconj n w dc terms) Htap Hall).
+             F T Ch L E taper eps H window p _ (common C c1 cadd cmul cconj n w dc terms) HH Htap Hall).
 Qed.
